@@ -444,6 +444,7 @@ func (r *runner) invoke(ctx context.Context, s M, ret M) {
 	case "NewV2Session", "NewSession":
 		var sess bmc.Session
 		var err error
+		r.mt.inSess = false
 		if api == "NewV2Session" {
 			opts := &bmc.V2SessionOpts{}
 			if s["keepOpts"] == true {
@@ -595,7 +596,12 @@ func (r *runner) invoke(ctx context.Context, s M, ret M) {
 			ret["noTarget"] = true
 			return
 		}
-		setErr(r.sess.Close(ctx))
+		cerr := r.sess.Close(ctx)
+		setErr(cerr)
+		if cerr != nil && s["keepOnErr"] == true {
+			// the caller keeps the session value after a Close that failed, and may try the Close again
+			break
+		}
 		r.mt.inSess = false
 		// the caller drops a closed session: "the session obtained" now means the one a later establishment returns
 		r.sess, r.v2sess = nil, nil
